@@ -20,16 +20,16 @@ import (
 // the code under test).
 
 type XCase struct {
-	Widths []int    `json:"widths"`          // nodes per layer, top to bottom; layer i has index i
-	Pos    [][]int  `json:"pos"`             // Pos[i][j] = LayerPos of the j-th node of layer i's Nodes slice
-	Edges  [][3]int `json:"edges"`           // (gap g, j in layer g, k in layer g+1) in insertion order: node j of layer g -> node k of layer g+1
-	Virt   []int    `json:"virt,omitempty"`  // flat node numbers marked virtual (must not matter)
-	Around int      `json:"around"`          // layer index handed to crossingsAround
+	Widths []int    `json:"widths"`         // nodes per layer, top to bottom; layer i has index i
+	Pos    [][]int  `json:"pos"`            // Pos[i][j] = LayerPos of the j-th node of layer i's Nodes slice
+	Edges  [][3]int `json:"edges"`          // (gap g, j in layer g, k in layer g+1) in insertion order: node j of layer g -> node k of layer g+1
+	Virt   []int    `json:"virt,omitempty"` // flat node numbers marked virtual (must not matter)
+	Around int      `json:"around"`         // layer index handed to crossingsAround
 }
 
 var propC12K = register(&Property{
 	ID: "C12K",
-	Rule: "crossing counter on arbitrary proper layerings: 2-6 layers (sometimes 66-70, so that layer indices pass 64) of 1-14 nodes (sometimes 65-80, so that positions pass 64), " +
+	Rule: "crossing counter on arbitrary proper layerings: 2-6 layers (sometimes 66-70, so that layer indices pass 64) of 1-14 nodes (sometimes 65-85, 182-202, 257-277 or 513-533: positions beyond 64, layer pairs beyond 2^15, 2^16 and 2^18 cells), " +
 		"downward edges between adjacent layers, no repeated node pair, LayerPos a drawn permutation, Nodes slice in or out of position order; " +
 		"oracle: countCrossings per gap, crossings(all) and crossingsAround(l) equal the naive inversion count. non-trivial = some gap with >= 1 crossing and >= 3 nodes on both sides",
 	New:   func() any { return &XCase{} },
@@ -54,7 +54,10 @@ func genXCase(rt *rapid.T) *XCase {
 	for i := 0; i < nl; i++ {
 		w := rapid.IntRange(1, maxW).Draw(rt, "w")
 		if wide && rapid.IntRange(0, 1).Draw(rt, "widelayer") == 0 {
-			w = rapid.IntRange(65, 80).Draw(rt, "ww")
+			// just beyond 64 positions, or beyond 2^15, 2^16, 2^18 matrix cells for a layer pair (seeded/r6-m12 switches
+			// to another edge sort above 2^15 cells - the end-to-end check cannot afford such layers, this one can)
+			lo := []int{65, 182, 257, 513}[rapid.IntRange(0, 3).Draw(rt, "wwclass")]
+			w = rapid.IntRange(lo, lo+20).Draw(rt, "ww")
 		}
 		c.Widths = append(c.Widths, w)
 		var pos []int
